@@ -1,0 +1,8 @@
+//go:build verif
+
+package gateway
+
+// VerifExtractHostname maps a request host (SNI or Host header) to a tunnel name.
+func (g *Gateway) VerifExtractHostname(host string) (string, error) {
+	return g.extractHostname(host)
+}
